@@ -320,9 +320,11 @@ func (r *Recorder) snapVisible(inc *Incarnation, f *SnapFileWrap) {
 			// Forwarded as it is from a node that has exactly these bytes: whatever is wrong with
 			// them (a mixed file, F3; a regressed state, F2) was that node's; the receiver carries
 			// the taints on.
-			for _, t := range []string{"F2", "F3"} {
-				if r.anyTaint[t] {
-					r.setTaint(inc.Node, t)
+			if ctx := r.ctxByTask[r.c.Sim.Cur()]; ctx != nil && ctx.Msg.From != nil {
+				for _, t := range []string{"F2", "F3"} {
+					if ctx.Msg.From.Node.taint[t] {
+						r.setTaint(inc.Node, t)
+					}
 				}
 			}
 		}
